@@ -260,3 +260,132 @@ Theorem C05_own_size_positive : forall t,
   (exists p (d : bytes), In (p, d) (files_of [] t) /\ d <> []) -> 0 < tree_size t.
 Proof. exact tree_size_pos. Qed.
 Print Assumptions C05_own_size_positive.
+
+(* ---------------------------------------------------------------------------------------------- *)
+(* ANY well-formed metafile, whoever encoded it (Spec/MetafileWF.v, Proofs/WellFormedMetafiles.v) *)
+(* ---------------------------------------------------------------------------------------------- *)
+(* describes_v1 / describes_v2 / describes_hybrid say, with `lookup` only (so arbitrary other keys anywhere, any key
+   order), that a decoded metafile value records a payload the way BEP 3 / BEP 47 / BEP 52 prescribe:
+   v1: name, piece length, no "meta version", `length` for a single file or `files` = one dictionary per entry of a LAYOUT
+       (file entries with length / non-empty path / optional attr without "p"; padding entries with an attr containing
+       "p"), `pieces` = SHA-1 of the pl-slices of the layout's stream (padding entries as zeros);
+   v2: "meta version" 2, no `pieces`, "file tree" matching the payload node by node in dictionary order (the payload's own
+       enumeration order is arbitrary, so ANY dictionary order is covered), leaves = length + (non-empty files) pieces
+       root = bep52_root, "piece layers" giving every file longer than a piece its bep52_piece_layer; a single file is
+       {name: {"": leaf}} WITHOUT info.length (or with it);
+   hybrid: both in one info dictionary, padding entries anywhere in the v1 list, a trailing one or not.
+   layout_of_payload lay t: the file entries of the layout are exactly the files of t. *)
+From TF Require Import Spec.MetafileWF Proofs.WellFormedMetafiles.
+
+(* BEP 3 / BEP 47.  Nothing is assumed about the file system at the paths of padding entries (D39).  The recorded size is
+   the size of the layout: the payload plus its padding entries (C05_wellformed_v1_size_without_pads) *)
+Theorem C05_wellformed_v1_metafiles_verify : forall (H1 H256 : bytes -> bytes) (B : nat),
+  (forall x, length (H1 x) = 20) ->
+  forall m name pl lay t fs base path,
+  0 < pl -> describes_v1 H1 m name pl lay -> layout_of_payload lay t ->
+  find_root (fs_exists fs) (fs_listdir fs) name path = Some base -> holds fs base t ->
+  let n := layout_size lay in
+  recheck_model H1 H256 B fs m path = Some (Z.of_nat n, n, n).
+Proof. exact wf_v1_verify. Qed.
+Print Assumptions C05_wellformed_v1_metafiles_verify.
+
+Theorem C05_wellformed_v1_size_without_pads : forall lay t, layout_of_payload lay t ->
+  Forall (fun s => slot_disk s <> None) lay -> layout_size lay = tree_size t.
+Proof. exact layout_size_no_pads. Qed.
+Print Assumptions C05_wellformed_v1_size_without_pads.
+
+Theorem C05_wellformed_v1_size_positive : forall lay t, layout_of_payload lay t ->
+  (exists p (d : bytes), In (p, d) (files_of [] t) /\ d <> []) -> 0 < layout_size lay.
+Proof. exact layout_size_pos. Qed.
+Print Assumptions C05_wellformed_v1_size_positive.
+
+(* BEP 52, every block size B > 0 and piece length B * 2^k; a single file without info.length included *)
+Theorem C05_wellformed_v2_metafiles_verify : forall (H1 H256 : bytes -> bytes) (B : nat), 0 < B ->
+  forall k pl, pl = B * 2 ^ k -> (forall x, length (H256 x) = 32) ->
+  forall m name t fs base path,
+  describes_v2 H256 B k m name pl t ->
+  find_root (fs_exists fs) (fs_listdir fs) name path = Some base -> holds fs base t ->
+  recheck_model H1 H256 B fs m path = Some (Z.of_nat (tree_size t), tree_size t, tree_size t).
+Proof. exact wf_v2_verify. Qed.
+Print Assumptions C05_wellformed_v2_metafiles_verify.
+
+(* hybrid (checked by HashChecker: the v1 half is never read, so whatever padding entries it has) *)
+Theorem C05_wellformed_hybrid_metafiles_verify : forall (H1 H256 : bytes -> bytes) (B : nat), 0 < B ->
+  forall k pl, pl = B * 2 ^ k -> (forall x, length (H256 x) = 32) ->
+  forall m name lay t fs base path,
+  describes_hybrid H1 H256 B k m name pl lay t ->
+  find_root (fs_exists fs) (fs_listdir fs) name path = Some base -> holds fs base t ->
+  recheck_model H1 H256 B fs m path = Some (Z.of_nat (tree_size t), tree_size t, tree_size t).
+Proof. exact wf_hybrid_verify. Qed.
+Print Assumptions C05_wellformed_hybrid_metafiles_verify.
+
+(* the reference encoder (Spec/MetafileWF.v ref_metafile_gen = harness/ref/oracle.py ref_metafile on a content tree; extra
+   top-level and info keys that do not clash with the ones it writes) writes values that describe its input *)
+Theorem C05_reference_v1_describes : forall (H1 H256 : bytes -> bytes) (B : nat) pads name t pl et ei tp,
+  extras_ok et ei ->
+  describes_v1 H1 (ref_metafile_gen H1 H256 B true false pads name t pl et ei tp) name pl (ref_v1_layout pads tp pl t).
+Proof. exact ref_v1_describes. Qed.
+Print Assumptions C05_reference_v1_describes.
+
+Theorem C05_reference_v2_describes : forall (H1 H256 : bytes -> bytes) (B : nat), 0 < B ->
+  forall k pl, pl = B * 2 ^ k -> forall name t et ei tp,
+  extras_ok et ei -> wf_node t -> no_layer_collision H256 B k pl t ->
+  describes_v2 H256 B k (ref_metafile_gen H1 H256 B false true false name t pl et ei tp) name pl t.
+Proof. exact ref_v2_describes. Qed.
+Print Assumptions C05_reference_v2_describes.
+
+Theorem C05_reference_hybrid_describes : forall (H1 H256 : bytes -> bytes) (B : nat), 0 < B ->
+  forall k pl, pl = B * 2 ^ k -> forall pads name t et ei tp,
+  extras_ok et ei -> wf_node t -> no_layer_collision H256 B k pl t ->
+  describes_hybrid H1 H256 B k (ref_metafile_gen H1 H256 B true true pads name t pl et ei tp) name pl
+                   (ref_v1_layout pads tp pl t) t.
+Proof. exact ref_hybrid_describes. Qed.
+Print Assumptions C05_reference_hybrid_describes.
+
+(* ... hence verify: ref_metafile for version 1, 2 and 3 (anything else = hybrid), v2 single files WITHOUT info.length,
+   hybrids WITHOUT (tp = false) or with a trailing padding entry, every extra key set *)
+Theorem C05_reference_metafiles : forall (H1 H256 : bytes -> bytes) (B : nat), 0 < B ->
+  forall k pl, pl = B * 2 ^ k -> (forall x, length (H1 x) = 20) -> (forall x, length (H256 x) = 32) ->
+  forall version name t et ei tp fs base path,
+  extras_ok et ei -> wf_node t -> no_layer_collision H256 B k pl t ->
+  find_root (fs_exists fs) (fs_listdir fs) name path = Some base -> holds fs base t ->
+  recheck_model H1 H256 B fs (ref_metafile H1 H256 B version name t pl et ei tp) path =
+  Some (Z.of_nat (tree_size t), tree_size t, tree_size t).
+Proof. exact reference_metafiles_verify. Qed.
+Print Assumptions C05_reference_metafiles.
+
+(* ... and the v1 form with BEP 47 padding files (pads = true), which the Python encoder writes only inside hybrids *)
+Theorem C05_reference_v1_padded_metafiles : forall (H1 H256 : bytes -> bytes) (B : nat), 0 < B ->
+  forall k pl, pl = B * 2 ^ k -> (forall x, length (H1 x) = 20) ->
+  forall pads name t et ei tp fs base path,
+  extras_ok et ei ->
+  find_root (fs_exists fs) (fs_listdir fs) name path = Some base -> holds fs base t ->
+  let n := layout_size (ref_v1_layout pads tp pl t) in
+  recheck_model H1 H256 B fs (ref_metafile_gen H1 H256 B true false pads name t pl et ei tp) path =
+  Some (Z.of_nat n, n, n).
+Proof. exact ref_v1_gen_verify. Qed.
+Print Assumptions C05_reference_v1_padded_metafiles.
+
+(* through the parent: the file system with nothing but t at parent/name holds t there and find_root finds it from the
+   parent (not named like the payload: D33) *)
+Theorem C05_parent_disk_holds : forall parent name t, wf_node t ->
+  holds (disk_of parent (Dir [(name, t)])) (parent ++ [name]) t.
+Proof. exact disk_of_child_holds. Qed.
+Print Assumptions C05_parent_disk_holds.
+
+Theorem C05_parent_root_found : forall parent name t, wf_node t -> last parent [] <> name ->
+  let fs := disk_of parent (Dir [(name, t)]) in
+  find_root (fs_exists fs) (fs_listdir fs) name parent = Some (parent ++ [name]).
+Proof. exact disk_of_child_find_root. Qed.
+Print Assumptions C05_parent_root_found.
+
+(* the metafiles the v2-capable creator models write (TorrentFileV2, TorrentFileHybrid, TorrentAssembler) are well formed in
+   this sense -- the v2 keys describe the payload enumerated in sorted order -- so C05_own_v2_metafiles_verify(_hybrid) are
+   instances of the theorems above (Proofs/WellFormedMetafiles.v own_v2_verify_from_well_formed) *)
+Theorem C05_own_v2_metafiles_are_well_formed : forall (H1 H256 : bytes -> bytes) (B : nat), 0 < B ->
+  forall k pl, pl = B * 2 ^ k -> forall o name t m,
+  wf_node t -> v2_capable_output H1 H256 B pl o name t m -> no_layer_collision H256 B k pl t ->
+  exists meta info, header m meta info name pl /\ lookup ck_meta_version info = Some (BInt 2) /\
+                    v2_part H256 B k meta info name pl (sort_tree t).
+Proof. exact own_v2_capable_well_formed. Qed.
+Print Assumptions C05_own_v2_metafiles_are_well_formed.
